@@ -238,6 +238,7 @@ class JobResult:
         self.log = ""
         self.gb = None
         self.scratch = None
+        self.nobody = []
 
 
 def job_build(job, specdir, scratch):
@@ -350,6 +351,7 @@ def run_job(job, specdir, keep_dir):
             raise Undecided("cbmc timeout after %ds" % job.timeout)
         props, status, msgs = parse_cbmc_json(outp)
         r.log = msgs
+        r.nobody = sorted(set(re.findall(r"no body for function '?([A-Za-z0-9_]+)'?", msgs)))
         if props is None:
             raise Undecided("cbmc gave no result (rc=%s): %s %s" % (rc, (msgs or "")[-1500:], (err or "")[-500:]))
         if "ignoring forall" in msgs or "ignoring exists" in msgs:
@@ -536,6 +538,7 @@ def check(prop_id, spec, tier, specdir):
     samples = []; per_job = []
     solver_s = 0.0
     b_obl = 0; b_dis = 0
+    nobody = set()
     functions = set(meta.get("functions", []))
     bounded_notes = []
     for r in results:
@@ -544,6 +547,7 @@ def check(prop_id, spec, tier, specdir):
         if j.bounded:
             bounded_notes.append("%s: %s" % (j.name, j.bounded))
         solver_s += r.seconds
+        nobody.update(r.nobody)
         if r.status == "undecided":
             undecided.append("%s: %s" % (j.name, r.reason))
             per_job.append({"job": j.name, "route": j.route, "status": "undecided", "reason": r.reason[:300],
@@ -637,6 +641,7 @@ def check(prop_id, spec, tier, specdir):
         "per_job": per_job,
         "samples": samples,
         "bounded": bounded_notes,
+        "bodyless_callees_treated_as_nondet_return_no_side_effect": sorted(nobody),
         "bounded_obligations": b_obl, "bounded_discharged": b_dis,
         "exhaustive": False,
         "solver_seconds_sum": round(solver_s, 1),
